@@ -877,6 +877,9 @@ def run(ctx, model_ok=True):
                                        'catalogue_of_negated': [(r['peak_flux'], r['ra'], r['dec']) for r in n]})
     else:
         ctx.notes.append('the recorded mixed-sign-island finding no longer reproduces on the implementation')
+    # ---- command line tie: the argument glue of AegeanTools/CLI vs the library call that --help promises
+    from harness import cli_cases
+    cli_cases.hook(ctx, cli_cases.aegean_polarity_cli, 'aegean --negative/--nopositive')
 
 
 def drop_source(spec, k):
@@ -984,6 +987,9 @@ def replay(ctx, obj):
         for b in obj.get('broken', []):
             print('  ', b.get('what'), str(b.get('detail', b.get('case', '')))[:400])
         return 1
+    if fi.get('kind') == 'cli':
+        from harness import cli_cases
+        return cli_cases.replay_cli(ctx, fi)
     if fi['kind'] == 'estimate':
         msg = mirror_problem(fi['case'])
         print('island:', fi['case']['data'])
